@@ -378,6 +378,10 @@ def r7_category(ctx: Ctx, ws: FuncInfo) -> None:
         ctx.unknown('C12.R7', ws, 'build_category_view not found')
     loops = [s for s in bc.node.body if isinstance(s, ast.For)]
     src_loop = [lp for lp in loops if src(lp.iter) == 'by_merchant.items()']
+    if not src_loop:
+        # no merchant-by-merchant loop over by_merchant any more (e.g. one build_section_merchants call over the whole table): the path-count
+        # rules below were confirmed on that loop and do not bind
+        ctx.unknown('C12.R7', bc, 'loop over by_merchant.items() not found in build_category_view')
     ctx.check(bool(src_loop) and not any(isinstance(n, (ast.Continue, ast.Break)) for n in ast.walk(src_loop[0])) if src_loop else False, 'C12.R7', bc, 'all-merchants',
               'the category view is built from every analysed merchant', 'some merchants are skipped when building the category view')
     grp = [lp for lp in loops if src(lp.iter) == 'all_merchants.items()']
@@ -387,9 +391,16 @@ def r7_category(ctx: Ctx, ws: FuncInfo) -> None:
     paths = [p for p in body.paths(ENTRY, (CONT, BREAK, EXIT)) if p[-1] != RAISE]
     ctx.count('paths', len(paths))
 
-    def once(pred, label, text_ok, text_bad):
+    def once(pred, label, text_ok, text_bad, target_text=None):
         ids = {body.nid(s) for s in body.stmts() if pred(s)}
         if not ids:
+            # the accumulation statement is not there in the spelling the rule knows: a change of shape (setdefault, local references …), or a
+            # deleted update.  Only the latter is a verdict: it shows as *no* store / += on that field at all in the loop
+            fld_ = label.split(':')[-1]
+            exact = [s for s in body.stmts() if isinstance(s, ast.AugAssign) and target_text and src(s.target) == target_text]
+            other = [s for s in body.stmts() if isinstance(s, (ast.AugAssign, ast.Assign)) and f"['{fld_}']" in src(s.targets[0] if isinstance(s, ast.Assign) else s.target)]
+            if not exact and (other or label == 'cell'):
+                ctx.unknown('C12.R7', bc, f'{text_bad}: not in a recognised spelling')
             ctx.fail('C12.R7', bc, label, f'{text_bad}: statement not found', grp[0])
             return
         counts = {sum(1 for n in p if n in ids) for p in paths}
@@ -400,7 +411,7 @@ def r7_category(ctx: Ctx, ws: FuncInfo) -> None:
     for level, prefix in (('subcategory', "categories[cat]['subcategories'][subcat]"), ('category', 'categories[cat]')):
         for fld, srcf in (('total', "merchant.get('ytd', 0)"), ('count', "merchant.get('count', 0)"), ('monthly', "merchant.get('monthly', 0)")):
             once(lambda s, p=prefix, f=fld, v=srcf: isinstance(s, ast.AugAssign) and isinstance(s.op, ast.Add) and src(s.target) == f"{p}['{f}']" and src(s.value) == v,
-                 f'{level}:{fld}', f'{level} {fld} += merchant {fld}, once', f'{level} {fld} accumulation')
+                 f'{level}:{fld}', f'{level} {fld} += merchant {fld}, once', f'{level} {fld} accumulation', target_text=f"{prefix}['{fld}']")
     rets = [r for r in ast.walk(bc.node) if isinstance(r, ast.Return)]
     ctx.check(len(rets) == 1 and src(rets[0].value) == 'categories', 'C12.R7', bc, 'return', 'returns the grouped categories', 'category view is not what is returned')
 
